@@ -27,14 +27,23 @@ def getNat (j : J) (k : String) : Except String Nat := do
 def toKey (j : J) : Except String Key := do
   pure (← getNat j "kind", ← j.getStr "name")
 
+/-- the offered `metadata`: name, resourceVersion, and under "meta" generation plus anything else -/
+def toMeta (j : J) : Meta :=
+  let extra := j.getD "meta"
+  let others := match extra with
+    | .obj kvs => kvs.filterMap fun (k, v) => if k == "generation" then none else some (k, render v)
+    | _ => []
+  { name := optStr j "name", resourceVersion := optStr j "version",
+    generation := optNat extra "generation", others := others }
+
 def toOp (j : J) : Except String (Op DSpec) := do
   match ← j.getStr "op" with
   | "offer" =>
     let spec := j.getD "spec"
-    pure (.offer (← toKey j) (optStr j "version") ⟨← getNat spec "id", ← spec.getBool "fail"⟩ (optNat j "sys")
+    pure (offerOf (← getNat j "kind") (toMeta j) ⟨← getNat spec "id", ← spec.getBool "fail"⟩ (optNat j "sys")
       ((j.getD "cycle").bool?.getD false))
   | "delete" => pure (.delete (← toKey j) (optStr j "version"))
-  | "deleteMeta" => pure (.deleteMeta (← toKey j) (optStr j "version"))
+  | "deleteMeta" => pure (deleteMetaOf (← getNat j "kind") (toMeta j))
   | "lookup" => pure (.lookup (← toKey j))
   | "systemData" => pure (.systemData (← toKey j))
   | o => throw s!"bad op {o}"
